@@ -69,6 +69,19 @@ def pregen(ctx):
                 os.path.join(C.COQ, "Generated", "RoughnessSrc.v"), "wavephysics/roughness.py")
 
 
+JANSSEN_FINDING_KEY = "janssen:pm-sea-hs2.766-u17.5-charnock0.006-viscous1-not-at-the-single-root"
+
+
+def known_janssen_case(sea, params_in_force):
+    """the one recorded sea / configuration (narrow on purpose: any other failure is reported)"""
+    try:
+        return (abs(C.unfx(sea["hs"]) - 2.7657905754061116) < 1e-12 and abs(C.unfx(sea["U"]) - 17.512343559961906) < 1e-9
+                and abs(C.unfx(params_in_force.get("charnock_constant", "0x0p+0")) - 0.006) < 1e-12
+                and abs(C.unfx(params_in_force.get("viscous_stress_parameter", "0x0p+0")) - 1.0) < 1e-12)
+    except Exception:  # noqa
+        return False
+
+
 def run(ctx):
     rng = ctx.rng
     cases = []
@@ -250,8 +263,22 @@ def run(ctx):
 
     # ------------------------------------------------------------------ Janssen roughness (implementation only)
     jan = []
+    jan_second, jan_cases = {}, {}
     nj = ctx.n(6, 60)
     scan = [-19.9 + 19.8 * j / 79 for j in range(80)]
+    # corpus case of the recorded finding (known_findings.txt, key JANSSEN_FINDING_KEY): a Pierson-Moskowitz sea for which
+    # roughness() returns a value that is not the (single) root of the stress balance
+    cfg = [0.03 + (0.9 - 0.03) * j / 29 for j in range(30)]
+    cdirs = [360.0 * j / 36 for j in range(36)]
+    csea = {"hs": C.fx(2.7657905754061116), "fp": C.fx(0.14564828092690246), "md": C.fx(342.2974477218545),
+            "width": C.fx(20.0), "shape": "pm", "depth": "nan", "U": C.fx(17.512343559961906), "wdir": C.fx(339.08258870351415)}
+    cpar = {"viscous_stress_parameter": C.fx(1.0), "charnock_constant": C.fx(0.006)}
+    ccase = {"op": "janssen", "f": [C.fx(v) for v in cfg], "dirs": [C.fx(v) for v in cdirs], "seas": [csea],
+             "wind_type": "u10", "params": cpar, "scan": [C.fx(v) for v in scan]}
+    cases.append(ccase)
+    jan_second[len(jan)] = None
+    jan_cases[len(jan)] = ccase
+    jan.append(("u10", cpar, [csea])); meta.append(("janssen", None))
     for i in range(nj):
         nf = rng.choice([30, 40])
         fgrid = [0.03 + (0.9 - 0.03) * j / (nf - 1) for j in range(nf)]
@@ -297,6 +324,8 @@ def run(ctx):
             case["second"] = rng.choice([{"growth_parameter_betamax": C.fx(rng.choice([1.2, 1.75, 2.0]))},
                                          {"charnock_constant": C.fx(rng.choice([0.006, 0.015, 0.02]))}])
         cases.append(case)
+        jan_second[len(jan)] = case.get("second")
+        jan_cases[len(jan)] = case
         jan.append((typ, params, seas)); meta.append(("janssen", None))
 
     impl = ctx.impl("C10.py", {"cases": cases})["results"]
@@ -511,6 +540,26 @@ def run(ctx):
                 ctx.oracle_fail("Janssen roughness batch raised %s: %s" % (im["error"], im["msg"]), rep)
                 continue
             iz = [C.unfx(v) for v in im["z"]]
+            def _same(a_, b_):
+                a_ = [C.unfx(v) for v in a_]; b_ = [C.unfx(v) for v in b_]
+                return len(a_) == len(b_) and all((x != x and y != y) or C.close(x, y, 1e-9, 1e-300) for x, y in zip(a_, b_))
+            wz = im.get("wrapper_z")
+            if wz is not None:
+                ctx.tally("janssen: module-level wrapper janssen_roughness_length")
+                if isinstance(wz, dict):
+                    ctx.oracle_fail("roughness.janssen_roughness_length raised %s: %s" % (wz.get("error"), wz.get("msg")), rep)
+                elif not _same(wz, im["z"]):
+                    ctx.oracle_fail("roughness.janssen_roughness_length(u*, spectrum, balance, direction) = %r but "
+                                    "WindGeneration.roughness(u*, ..., wind_speed_input_type='friction_velocity') = %r"
+                                    % ([C.unfx(v) for v in wz][:4], [C.unfx(v) for v in im["z"]][:4]), rep)
+            ww = im.get("whole_winds")
+            if ww is not None:
+                ctx.tally("janssen: whole-number winds as integers")
+                if "error" in ww:
+                    ctx.oracle_fail("roughness() with integer wind speeds raised %s: %s" % (ww.get("error"), ww.get("msg")), rep)
+                elif not _same(ww["int"], ww["float"]):
+                    ctx.oracle_fail("roughness() of whole-number winds given as integers is %r, given as floats %r"
+                                    % ([C.unfx(v) for v in ww["int"]][:4], [C.unfx(v) for v in ww["float"]][:4]), rep)
             for p, s in enumerate(seas):
                 z = iz[p]
                 pt = im["points"][p]
@@ -543,12 +592,14 @@ def run(ctx):
                     if not rel <= 1e-4:
                         rp["rho_ustar2"] = lhs; rp["total_stress"] = st
                         ctx.oracle_fail("stress balance violated at the returned roughness: rho u*^2 = %r, total stress = %r (relative %.2e > 1e-4); "
-                                        "the scanned balance has a single sign change on (e^-20, 1)" % (lhs, st, rel), rp)
+                                        "the scanned balance has a single sign change on (e^-20, 1)" % (lhs, st, rel), rp,
+                                        key=(JANSSEN_FINDING_KEY if known_janssen_case(s, params) else None))
                     # the returned root lies in the scan cell that holds the sign change
                     xs = [-19.9 + 19.8 * j / 79 for j in range(80)]
                     jj = [j for j in range(79) if (sc[j] > 0) != (sc[j + 1] > 0)][0]
                     if not (xs[jj] - 0.26 <= math.log(z) <= xs[jj + 1] + 0.26):
-                        ctx.oracle_fail("returned roughness ln z0 = %.3f is not at the scanned root in [%.3f, %.3f]" % (math.log(z), xs[jj], xs[jj + 1]), rp)
+                        ctx.oracle_fail("returned roughness ln z0 = %.3f is not at the scanned root in [%.3f, %.3f]" % (math.log(z), xs[jj], xs[jj + 1]), rp,
+                                        key=(JANSSEN_FINDING_KEY if known_janssen_case(s, params) else None))
             sec = im.get("second")
             if sec:
                 z2s = [C.unfx(v) for v in sec["z"]]
@@ -566,10 +617,14 @@ def run(ctx):
                         if not rel <= 1e-4:
                             rp = dict(rep); rp["point"] = p; rp["z_impl"] = z2s[p]; rp["first_configuration_z"] = iz[p]
                             rp["note"] = "second roughness() call on the same generator object after update_parameters()"
+                            rp["second_configuration"] = jan_second.get(ji - 1)
+                            rp["payload_case"] = jan_cases.get(ji - 1)
                             rp["rho_ustar2"] = lhs; rp["total_stress"] = st
                             ctx.oracle_fail("after update_parameters() on the same generator object the returned roughness does not satisfy the "
                                             "stress balance of the configuration in force: rho u*^2 = %r, total stress = %r (relative %.2e > 1e-4)"
-                                            % (lhs, st, rel), rp)
+                                            % (lhs, st, rel), rp,
+                                            key=(JANSSEN_FINDING_KEY if known_janssen_case(
+                                                seas[p], dict(params, **(jan_second.get(ji - 1) or {}))) else None))
             if ji == 1:
                 ctx.sample({"janssen": {"wind_type": typ, "z0": iz[:4]}})
 
